@@ -284,7 +284,8 @@ fn main() {
     }
 
     let neutralise = std::env::var("C17_EXCLUSIONS").ok().as_deref() != Some("off");
-    let i32_keys_in_random = std::env::var("C17_INT32_KEYS").ok().as_deref() == Some("on");
+    // the Int32-key finding is fixed in /repo: Int32 keys are part of the random volume by default
+    let i32_keys_in_random = std::env::var("C17_INT32_KEYS").ok().as_deref() != Some("off");
     let dir = engine::scratch("c17");
     let ctx = Ctx {
         check: &check,
